@@ -1,16 +1,366 @@
 /-
   C01 — HTTP/1.x request framing is unambiguous; malformed framing is rejected.
-  (theorems are added below; helper lemmas live in LtVerif/Proofs/H1.lean)
+  Property theorems only; helper lemmas live in LtVerif/Proofs/H1*.lean.
 -/
 import LtVerif.Model.H1Parse
-import LtVerif.Model.H1Chunked
+import LtVerif.Proofs.H1Chunked
+import LtVerif.Proofs.H1Parse
 namespace LtVerif.C01
 open LtVerif B
+
+/-! ## chunked request bodies (h1_chunked) -/
 
 /-- segmentation independence of the chunked decoder automaton: feeding a stream in two
     pieces is the same as feeding it at once (hence the same for any segmentation). -/
 theorem c01_chunked_segmentation (cfg : CkCfg) (s : CkSt) (a b : Bytes) :
     ckFeed cfg (ckFeed cfg s a) b = ckFeed cfg s (a ++ b) := by
   simp [ckFeed, List.foldl_append]
+
+/-- wire form of a chunked body whose chunks use arbitrary accepted size lines -/
+def wire (cs : List (Bytes × Bytes)) (last : Bytes) : Bytes :=
+  cs.flatMap (fun c => c.1 ++ c.2 ++ [cr, lf]) ++ (last ++ [cr, lf])
+
+/-- Round trip: every chunked message (any number of non-empty chunks, any accepted spelling
+    of the chunk-size lines incl. chunk extensions, no trailers) decodes to exactly the
+    concatenation of the chunk data, consumes exactly the message, and leaves keep-alive on. -/
+theorem c01_chunked_roundtrip (cfg : CkCfg) (hcfg : cfg.maxSize = 0) (hmf : cfg.maxField ≥ 1026)
+    (cs : List (Bytes × Bytes)) (last : Bytes)
+    (hcs : ∀ c ∈ cs, GoodLine c.1 c.2.length ∧ c.2 ≠ []) (hlast : GoodLine last 0) :
+    ckFeed cfg {} (wire cs last) =
+      { mode := .done, out := cs.flatMap (·.2), ka := true, after := 0 } := by
+  suffices h : ∀ (out : Bytes), ckFeed cfg { mode := .hdr [] false, out := out, ka := true, after := 0 }
+      (wire cs last) = { mode := .done, out := out ++ cs.flatMap (·.2), ka := true, after := 0 } by
+    simpa using h []
+  induction cs with
+  | nil => intro out; simpa [wire] using ckFeed_final cfg hmf hlast out true 0
+  | cons c rest ih =>
+    intro out
+    have hc := hcs c (by simp)
+    have hrest : ∀ c ∈ rest, GoodLine c.1 c.2.length ∧ c.2 ≠ [] := fun x hx => hcs x (by simp [hx])
+    have : wire (c :: rest) last = (c.1 ++ c.2 ++ [cr, lf]) ++ wire rest last := by
+      simp [wire]
+    rw [this, ckFeed_append, ckFeed_chunk cfg hcfg hc.1 hc.2, ih hrest]
+    simp
+
+/-- Bytes that follow a complete chunked body are not consumed by it (they are the next
+    request): they only advance the `after` counter. -/
+theorem c01_chunked_no_overread (cfg : CkCfg) (hcfg : cfg.maxSize = 0) (hmf : cfg.maxField ≥ 1026)
+    (cs : List (Bytes × Bytes)) (last next : Bytes)
+    (hcs : ∀ c ∈ cs, GoodLine c.1 c.2.length ∧ c.2 ≠ []) (hlast : GoodLine last 0) :
+    ckFeed cfg {} (wire cs last ++ next) =
+      { mode := .done, out := cs.flatMap (·.2), ka := true, after := next.length } := by
+  rw [ckFeed_append, c01_chunked_roundtrip cfg hcfg hmf cs last hcs hlast]
+  generalize (cs.flatMap (·.2)) = out
+  suffices h : ∀ k, ckFeed cfg { mode := .done, out := out, ka := true, after := k } next
+      = { mode := .done, out := out, ka := true, after := k + next.length } by simpa using h 0
+  induction next with
+  | nil => intro k; simp [ckFeed_nil]
+  | cons b rest ih => intro k; rw [ckFeed_cons]; simp [ckStep, ih]; omega
+
+/-- Malformed framing: chunk data not followed by CRLF is a 400 and clears keep-alive. -/
+theorem c01_chunked_missing_crlf_rejected (cfg : CkCfg) (s : CkSt) (d : Bytes) (x y : UInt8)
+    (hd : d ≠ []) (hm : s.mode = .data d.length) (hxy : ¬ (x = cr ∧ y = lf)) :
+    (ckFeed cfg s (d ++ [x, y])).mode = .err 400 ∧ (ckFeed cfg s (d ++ [x, y])).ka = false := by
+  obtain ⟨mode, out, ka, after⟩ := s
+  simp only at hm
+  subst hm
+  rw [ckFeed_append, ckFeed_data cfg d d.length out ka after hd rfl]
+  simp only [ckFeed_cons, ckFeed_nil, ckStep]
+  by_cases h1 : x = cr <;> by_cases h2 : y = lf <;> simp_all
+
+/-- An invalid chunk-size line (as judged by the line validator) is a 400. -/
+theorem c01_chunked_bad_size_line_rejected (cfg : CkCfg) (p : Bytes) (e : Nat) (out : Bytes) (ka : Bool)
+    (hlf : lf ∉ p) (hnul : (0 : UInt8) ∉ p) (hlen : p.length + 1 < 1024)
+    (hbad : ckParseLine (p ++ [lf]) = .error e) :
+    (ckFeed cfg { mode := .hdr [] false, out := out, ka := ka, after := 0 } (p ++ [lf])).mode = .err e ∧
+    (ckFeed cfg { mode := .hdr [] false, out := out, ka := ka, after := 0 } (p ++ [lf])).ka = false := by
+  rw [ckFeed_append, ckFeed_hdr_pre cfg p [] out ka 0 hlf hnul (by simp; omega)]
+  simp [ckFeed_cons, ckFeed_nil, ckStep, hbad]
+
+/-- the validator rejects what RFC 9112 §7.1 does not allow at the start of a chunk-size line:
+    no hex digit, bare LF, or junk after the size that is neither BWS, ';' nor CR -/
+theorem c01_chunked_line_no_hex (l : Bytes) (h : (l.head?.bind hexVal) = none) :
+    ckParseLine l = .error 400 := by
+  unfold ckParseLine
+  cases l with
+  | nil => simp [ckHex]
+  | cons b rest =>
+    simp only [List.head?_cons, Option.bind_some] at h
+    simp [ckHex, h]
+
+/-- every reachable error state has keep-alive cleared (invariant over all inputs) -/
+theorem c01_chunked_error_closes (cfg : CkCfg) (bs : Bytes) :
+    ∀ (s : CkSt), ((∃ e, s.mode = .err e) → s.ka = false) →
+      ((∃ e, (ckFeed cfg s bs).mode = .err e) → (ckFeed cfg s bs).ka = false) := by
+  induction bs with
+  | nil => intro s hs; simpa [ckFeed_nil] using hs
+  | cons b rest ih =>
+    intro s hs
+    rw [ckFeed_cons]
+    apply ih
+    intro ⟨e', he'⟩
+    obtain ⟨mode, out, ka, after⟩ := s
+    cases mode with
+    | hdr acc nul =>
+      by_cases h1 : (b = lf && !nul) = true
+      · cases hp : ckParseLine (acc ++ [b]) with
+        | error e => simp [ckStep, h1, hp]
+        | ok n =>
+          cases n with
+          | zero => simp [ckStep, h1, hp] at he'
+          | succ k =>
+            by_cases h2 : ¬cfg.maxSize = 0 ∧ (cfg.maxSize < k + 1 ∨ cfg.maxSize - (k + 1) < List.length out)
+            · simp [ckStep, h1, hp, h2]
+            · simp [ckStep, h1, hp, h2] at he'
+      · by_cases h3 : 1023 ≤ List.length acc
+        · simp [ckStep, h1, h3]
+        · simp [ckStep, h1, h3] at he'
+    | data n => simp only [ckStep] at he'; split at he' <;> simp at he'
+    | crlf f =>
+      cases f with
+      | none => simp [ckStep] at he'
+      | some a => simp only [ckStep] at he' ⊢; split <;> simp_all
+    | trailer acc off nul => simp only [ckStep] at he'; split at he' <;> (try split at he') <;> simp at he'
+    | done => simp [ckStep] at he'
+    | err e0 => simpa [ckStep] using hs ⟨e0, rfl⟩
+
+/-- from the initial state: an error outcome always has keep-alive cleared -/
+theorem c01_chunked_error_closes_init (cfg : CkCfg) (bs : Bytes) (e : Nat)
+    (h : (ckFeed cfg {} bs).mode = .err e) : (ckFeed cfg {} bs).ka = false :=
+  c01_chunked_error_closes cfg bs {} (by simp) ⟨e, h⟩
+
+theorem c01_chunked_error_absorbing (cfg : CkCfg) (s : CkSt) (e : Nat) (bs : Bytes)
+    (h : s.mode = .err e) : ckFeed cfg s bs = s := by
+  induction bs with
+  | nil => rfl
+  | cons b rest ih =>
+    rw [ckFeed_cons]
+    have : ckStep cfg s b = s := by
+      obtain ⟨mode, out, ka, after⟩ := s
+      simp only at h; subst h; simp [ckStep]
+    rw [this, ih]
+
+/-! non-vacuity: concrete accepted size lines, incl. a chunk extension and leading zeros -/
+example : GoodLine (ofString "5;x=y\r\n") 5 :=
+  ⟨by rfl, ⟨ofString "5;x=y\r", by decide, by decide, by decide⟩, by decide⟩
+example : GoodLine (ofString "000\r\n") 0 :=
+  ⟨by rfl, ⟨ofString "000\r", by decide, by decide, by decide⟩, by decide⟩
+example : ckFeed {} {} (ofString "5\r\nhello\r\n0\r\n\r\nGET") =
+    { mode := .done, out := ofString "hello", ka := true, after := 3 } := by decide
+example : (ckFeed {} {} (ofString "5\r\nhello\rX")).mode = .err 400 := by decide
+example : ckParseLine (ofString "5 x\r\n") = .error 400 := by rfl
+
+/-! ## request head (request.c) -/
+
+/-- the request state produced by the request line is "fresh": no body framing yet -/
+def Fresh (r0 : PReq) : Prop := r0.clSeen = false ∧ r0.bodyLen = 0
+
+/-- **Accepted field sections are unambiguous.**  If the header fields are accepted, then every
+    logical field line tokenised, and for the resulting list of (name, value) fields:
+    at most one Content-Length field and its value is all digits and fits int64; every non-empty
+    Transfer-Encoding value is exactly `chunked` (any case) and the request is HTTP/1.1; in strict
+    mode no field value contains a control character; and the framing the parser reports is the
+    RFC 9112 §6.3 rule: chunked iff a Transfer-Encoding field is present, else the Content-Length
+    value, else no body. -/
+theorem c01_accepted_fields_unambiguous (o : Opts) (r0 r : PReq) (lines : List Bytes)
+    (hfresh : Fresh r0) (h : parseHeaders o r0 lines = .ok r) :
+    ∃ fs : List (Bytes × Bytes),
+      (groupFolds lines).map (fieldOf o) = fs.map Except.ok ∧
+      (fs.filter (fun f => f.1 = nCL)).length ≤ 1 ∧
+      (∀ v, (nCL, v) ∈ fs → v ≠ [] ∧ ∃ k : Nat, strtoInt64 v = some k) ∧
+      (∀ v, (nTE, v) ∈ fs → v ≠ [] → eqIcase v vChunked = true ∧ r0.version = 1) ∧
+      (o.headerStrict = true → ∀ f ∈ fs, f.2.any lineCharInvalidStrict = false) ∧
+      (r.bodyLen = -1 ↔ ∃ v, (nTE, v) ∈ fs ∧ v ≠ []) ∧
+      (r.bodyLen ≠ -1 → ∀ v, (nCL, v) ∈ fs → strtoInt64 v = some r.bodyLen.toNat ∧ 0 ≤ r.bodyLen) ∧
+      (r.bodyLen ≠ -1 → (¬ ∃ v, (nCL, v) ∈ fs) → r.bodyLen = 0) ∧
+      (r.clSeen = true ↔ ∃ v, (nCL, v) ∈ fs) := by
+  obtain ⟨fs, htok, happ⟩ := (parseHeaders_ok_iff o r0 r lines).mp h
+  have inv := FramingInv.run fs (FramingInv.init o r0 hfresh.1 hfresh.2) happ
+  simp only [List.nil_append] at inv
+  refine ⟨fs, htok, inv.clOnce, ?_, inv.te, inv.strictVal, inv.chunked, ?_, ?_, inv.clSeen⟩
+  · intro v hv
+    obtain ⟨h1, k, hk, _⟩ := inv.clNum v hv
+    exact ⟨h1, k, hk⟩
+  · intro hne v hv
+    obtain ⟨_, k, hk, hb⟩ := inv.clNum v hv
+    rcases hb with hb | hb
+    · rw [hb]; simp [hk]
+    · exact absurd hb hne
+  · intro hne hno
+    rcases inv.noCl hno with h0 | h1
+    · exact h0
+    · exact absurd h1 hne
+
+/-- repeated Content-Length is always rejected (every mode) -/
+theorem c01_repeated_content_length_rejected (o : Opts) (r0 : PReq) (lines : List Bytes)
+    (fs : List (Bytes × Bytes)) (hfresh : Fresh r0)
+    (htok : (groupFolds lines).map (fieldOf o) = fs.map Except.ok)
+    (hdup : 2 ≤ (fs.filter (fun f => f.1 = nCL)).length) :
+    ∀ r, parseHeaders o r0 lines ≠ .ok r := by
+  intro r h
+  obtain ⟨fs', htok', hone, _⟩ := c01_accepted_fields_unambiguous o r0 r lines hfresh h
+  have : fs' = fs := by
+    have := htok'.symm.trans htok
+    exact (List.map_inj_right (fun a b hab => by injection hab)).mp this
+  subst this
+  omega
+
+/-- a Content-Length that is empty, non-numeric or larger than INT64_MAX is always rejected -/
+theorem c01_bad_content_length_rejected (o : Opts) (r0 : PReq) (lines : List Bytes)
+    (fs : List (Bytes × Bytes)) (v : Bytes) (hfresh : Fresh r0)
+    (htok : (groupFolds lines).map (fieldOf o) = fs.map Except.ok)
+    (hmem : (nCL, v) ∈ fs) (hbad : v = [] ∨ strtoInt64 v = none) :
+    ∀ r, parseHeaders o r0 lines ≠ .ok r := by
+  intro r h
+  obtain ⟨fs', htok', _, hnum, _⟩ := c01_accepted_fields_unambiguous o r0 r lines hfresh h
+  have : fs' = fs := by
+    have := htok'.symm.trans htok
+    exact (List.map_inj_right (fun a b hab => by injection hab)).mp this
+  subst this
+  obtain ⟨hne, k, hk⟩ := hnum v hmem
+  rcases hbad with hb | hb
+  · exact hne hb
+  · simp [hb] at hk
+
+/-- Transfer-Encoding other than exactly `chunked`, or on HTTP/1.0, is always rejected -/
+theorem c01_bad_transfer_encoding_rejected (o : Opts) (r0 : PReq) (lines : List Bytes)
+    (fs : List (Bytes × Bytes)) (v : Bytes) (hfresh : Fresh r0)
+    (htok : (groupFolds lines).map (fieldOf o) = fs.map Except.ok)
+    (hmem : (nTE, v) ∈ fs) (hv : v ≠ [])
+    (hbad : eqIcase v vChunked = false ∨ r0.version ≠ 1) :
+    ∀ r, parseHeaders o r0 lines ≠ .ok r := by
+  intro r h
+  obtain ⟨fs', htok', _, _, hte, _⟩ := c01_accepted_fields_unambiguous o r0 r lines hfresh h
+  have : fs' = fs := by
+    have := htok'.symm.trans htok
+    exact (List.map_inj_right (fun a b hab => by injection hab)).mp this
+  subst this
+  obtain ⟨h1, h2⟩ := hte v hmem hv
+  rcases hbad with hb | hb
+  · simp [hb] at h1
+  · exact hb h2
+
+/-- strict mode: a control character (other than HT) in any field value is rejected -/
+theorem c01_ctl_in_value_rejected_strict (o : Opts) (r0 : PReq) (lines : List Bytes)
+    (fs : List (Bytes × Bytes)) (f : Bytes × Bytes) (hfresh : Fresh r0) (hs : o.headerStrict = true)
+    (htok : (groupFolds lines).map (fieldOf o) = fs.map Except.ok)
+    (hmem : f ∈ fs) (hbad : f.2.any lineCharInvalidStrict = true) :
+    ∀ r, parseHeaders o r0 lines ≠ .ok r := by
+  intro r h
+  obtain ⟨fs', htok', _, _, _, hsv, _⟩ := c01_accepted_fields_unambiguous o r0 r lines hfresh h
+  have : fs' = fs := by
+    have := htok'.symm.trans htok
+    exact (List.map_inj_right (fun a b hab => by injection hab)).mp this
+  subst this
+  have := hsv hs f hmem
+  simp [hbad] at this
+
+/-- strict mode: Content-Length together with Transfer-Encoding is rejected;
+    every mode: HTTP/1.1 without Host is rejected -/
+theorem c01_te_and_cl_rejected_strict (o : Opts) (port : Nat) (r : PReq)
+    (hs : o.headerStrict = true) (hte : r.bodyLen = -1) (hcl : r.clSeen = true) :
+    ∀ r' t, parsePost o port r ≠ .ok r' t := by
+  intro r' t h
+  unfold parsePost at h
+  simp only at h
+  split at h
+  · simp at h
+  · split at h
+    · simp at h
+    · simp at h
+    · rename_i rr hstep
+      -- the host step does not touch bodyLen / clSeen
+      have hb : rr.bodyLen = -1 ∧ rr.clSeen = true := by
+        split at hstep
+        · split at hstep <;> simp at hstep; subst hstep; exact ⟨hte, hcl⟩
+        · split at hstep
+          · simp at hstep
+          · split at hstep
+            · simp at hstep
+            · split at hstep
+              · simp at hstep
+              · simp at hstep; subst hstep; exact ⟨hte, hcl⟩
+      split at h
+      · simp at h
+      · split at h
+        · rename_i h0; rw [hb.1] at h0; simp at h0
+        · simp [hb.1, hb.2, hs] at h
+
+theorem c01_http11_without_host_rejected (o : Opts) (port : Nat) (r : PReq)
+    (hv : r.version ≥ 1) (hh : r.host = none) :
+    ∀ r' t, parsePost o port r ≠ .ok r' t := by
+  intro r' t h
+  unfold parsePost at h
+  simp only at h
+  split at h
+  · simp at h
+  · simp [hh, hv] at h
+
+/-- strict mode: a request line that does not end in CRLF (bare LF) is rejected -/
+theorem c01_bare_lf_reqline_rejected_strict (o : Opts) (line block : Bytes)
+    (hs : o.headerStrict = true) (hlf : line.getD (line.length - 2) 0 ≠ cr) :
+    parseReqline o line block = .error 400 := by
+  have : parseReqlineCore o line = .error 400 := by
+    unfold parseReqlineCore
+    split
+    · rfl
+    · simp [hlf, hs]
+  simp [parseReqline, this]
+
+/-- strict mode: whitespace between field name and colon is rejected -/
+theorem c01_ws_before_colon_rejected_strict (o : Opts) (first : Bytes) (conts : List Bytes) (ci : Nat)
+    (hs : o.headerStrict = true) (hci : findIdx (· = colon) first 0 = some ci)
+    (hws : ((first.take ci).getLast?.map isWs).getD false = true) :
+    fieldOf o (first :: conts) = .error 400 := by
+  unfold fieldOf
+  simp [hci, hws, hs]
+
+/-- strict mode: an accepted (unfolded) field line ends in CRLF — bare LF is rejected -/
+theorem c01_bare_lf_field_rejected_strict (o : Opts) (line : Bytes) (f : Bytes × Bytes)
+    (hs : o.headerStrict = true) (h : fieldOf o [line] = .ok f) :
+    line.length ≥ 2 ∧ line.getD (line.length - 2) 0 = cr := by
+  obtain ⟨j, body, hj, hb⟩ := fieldOf_ok_stripEol o [line] f h
+  rw [hs] at hj hb
+  simp only [joinFolds, Option.some.injEq] at hj
+  subst hj
+  exact stripEol_strict_crlf line body hb
+
+/-- lenient mode: a NUL byte anywhere in the header block is rejected by the request line step -/
+theorem c01_nul_rejected_lenient (o : Opts) (line block : Bytes)
+    (hs : o.headerStrict = false) (hnul : block.contains 0 = true) :
+    ∀ r, parseReqline o line block ≠ .ok r := by
+  intro r h
+  unfold parseReqline at h
+  cases hc : parseReqlineCore o line with
+  | error e => simp [hc] at h
+  | ok p =>
+    obtain ⟨r1, uri⟩ := p
+    simp only [hc] at h
+    by_cases he : uri.isEmpty = true
+    · simp [he] at h
+    · have hm : (0 : UInt8) ∈ block := by simpa using hnul
+      simp [he, hs, hm] at h
+
+/-- strict mode: a control character, space or DEL in the request-target is rejected by the
+    request line step when URL control-character rejection is off, and always for CONNECT -/
+theorem c01_ctl_in_target_rejected_strict (o : Opts) (line block : Bytes) (r1 : PReq) (uri : Bytes)
+    (hs : o.headerStrict = true) (hcore : parseReqlineCore o line = .ok (r1, uri))
+    (hmode : o.ctrlsReject = false ∨ r1.method = ofString "CONNECT")
+    (hbad : uri.any uriCharInvalidStrict = true) :
+    parseReqline o line block = .error 400 := by
+  unfold parseReqline
+  simp only [hcore, hs]
+  split
+  · rfl
+  · rcases hmode with hm | hm <;> simp [hm, hbad]
+
+/-! non-vacuity -/
+example : Fresh { version := 1, keepAlive := true, method := ofString "POST" } := ⟨rfl, rfl⟩
+example : ∃ r, parseHeaders ⟨1⟩ { version := 1 } [ofString "Content-Length: 5\r\n"] = .ok r ∧ r.bodyLen = 5 :=
+  ⟨_, rfl, rfl⟩
+example : parseHeaders ⟨1⟩ { version := 1 }
+    [ofString "Content-Length: 5\r\n", ofString "Content-Length: 5\r\n"] = .error 400 := by rfl
+example : parseHeaders ⟨1⟩ { version := 0 } [ofString "Transfer-Encoding: chunked\r\n"] = .error 400 := by rfl
+example : parseHeaders ⟨1⟩ { version := 1 } [ofString "Transfer-Encoding: gzip, chunked\r\n"] = .error 501 := by rfl
 
 end LtVerif.C01
